@@ -379,3 +379,22 @@ PROPS["C07"] = {
             "workers": 4, "after": {"cmd": "sweep-activations", "arg": {"quick": 4099, "thorough": 13}}}],
     "assumptions": TERM_ASSUME + ["the double-precision libm functions exp/tanh/cosh are accurate to far better than 1e-5"],
 }
+
+PROPS["C10"] = {
+    "level": "model_checking",
+    "technique": "TLC model checking of the weight-tying state machine (FeedbackSM.tla) over all update histories + replay of the configuration table "
+                 "into real training with bitwise comparison of all unrolled copies",
+    "level_text": "TLC explores every history of per-copy updates with arbitrary (nondeterministic) gradients followed by re-coupling for all loop counts "
+                  "and the four coupling accumulations and checks that all copies are equal after creation and after every history; every "
+                  "(block layer list, loops, accumulation, optimizer, batch size) configuration is replayed: the block is built through the public "
+                  "builder, its copies must be bit-identical at creation and after training (weights, biases, kernels), the `parameters:` line "
+                  "must count one copy, and training must not panic",
+    "level_note": "seven block layer lists (dense with/without bias, conv, deconv, pairs), loops <= 3, 2 training epochs on 3 samples; the coupled "
+                  "VALUE is not prescribed by the property and not compared",
+    "rule": "one case = one (block, loops, accumulation, optimizer, batch) configuration; all distinct; non-trivial = all (every case trains)",
+    "mc": [{"module": "MC_C10",
+            "consts": {"quick": {"MaxLoops": 3, "MaxSteps": 2, "Blocks": "{1, 2, 3, 4, 5, 6, 7}", "Optimizers": '{"sgd", "adam", "rmsprop"}', "Batches": "{1, 2}"},
+                       "thorough": {"MaxLoops": 4, "MaxSteps": 3, "Blocks": "{1, 2, 3, 4, 5, 6, 7}", "Optimizers": '{"sgd", "sgdm", "adam", "adamw", "rmsprop"}', "Batches": "{1, 2, 3}"}},
+            "workers": 8, "timeout": {"quick": 600, "thorough": 3600}}],
+    "assumptions": COMMON_ASSUMPTIONS,
+}
